@@ -77,11 +77,15 @@ class PathResult:
 def run_path(unit, decisions, contracts):
     reset_names()
     ctx = Ctx(decisions)
+    saved_models = dict(models._MODELS)      # abstraction contracts registered by a unit's setup are local to the path
     try:
         return _run_path(unit, decisions, contracts, ctx)
     except PathInfeasible:
         # the alternatives discovered before the path died must still be explored
         return ctx, 'infeasible', {}, None, None
+    finally:
+        models._MODELS.clear()
+        models._MODELS.update(saved_models)
 
 
 def _run_path(unit, decisions, contracts, ctx):
